@@ -168,11 +168,11 @@ theorem float_neg_unpack_eq (x : Float) : (-x).toModel.unpack = x.toModel.unpack
   have hc := float_canon x
   have hr := float_inRange x
   generalize x.toModel.unpack = u at *
-  have hcn : Canon Format.binary64 u.neg := by cases u <;> first | trivial | exact hc
+  have hcn : Canon Format.binary64 u.neg := by cases u <;> trivial
   rcases repack_cases Format.binary64 (by decide) _ hcn with ⟨h1, _⟩ | ⟨s, m, e, p, h0, hnr, _⟩
   · exact h1
   · exfalso; apply hnr
-    cases u <;> first | trivial | exact hr
+    cases u <;> trivial
 
 /-- **negation is exact.** -/
 theorem toRat_neg (x : Float) : toRat (-x) = -toRat x := by
